@@ -769,6 +769,45 @@ theorem inv_stepAssign {c : Cfg} {w : World} (h : Inv c w) (htmp : w.imgs tmpSlo
       exact inv_pCtor h o tmpSlot _ b.w b.h b.pix _ htmp ⟨rfl, rfl, rfl, rfl⟩ (fun he => h.tags he s2 b hs2) (h.pixlen s2 b hs2) (hnw b hs2)
   next => exact h
 
+theorem pTakeDims_imgs (o : Org) (w : World) (s s2 : Nat) (a b : Img) (hs : w.imgs s = some a) (hs2 : w.imgs s2 = some b) (x : Nat) :
+    (pTakeDims o w s s2).imgs x = if x = s2 then some { b with w := 0, h := 0, off := 0, row := 0, pix := [] }
+                                  else if x = s then some (Img.withView o a.cleared b.w b.h) else w.imgs x := by
+  have hr : (release o w a).imgs = w.imgs := by
+    unfold release
+    cases a.mem with
+    | none => simp
+    | some b => simp only []; split <;> simp
+  unfold pTakeDims; simp only [hs, hs2, setImg_imgs, hr]
+
+/-- move_assign from a source without storage (patched variant): the target ends up owning nothing, with the source's (empty) dimensions -/
+theorem inv_pTakeDims {c : Cfg} {w : World} (h : Inv c w) (o : Org) (s s2 : Nat) (hne : s ≠ s2)
+    (hb : ∀ b, w.imgs s2 = some b → b.mem = none) : Inv c (pTakeDims o w s s2) := by
+  cases hs : w.imgs s with
+  | none => unfold pTakeDims; simp [hs]; exact h
+  | some a =>
+  cases hs2 : w.imgs s2 with
+  | none => unfold pTakeDims; simp [hs, hs2]; exact h
+  | some b =>
+    have hbm := hb b hs2
+    have hbz := (h.nomem s2 b hs2 hbm)
+    have h1 := inv_pRelease h o s
+    have hi1 := pRelease_imgs (w := w) o s a hs
+    -- first the target: an image without storage whose dimensions are the source's (no pixel)
+    have h2 : Inv c ((pRelease o w s).setImg s (some (Img.withView o a.cleared b.w b.h))) := by
+      refine h1.setless s (by intro j; rw [hi1]; simp; intro e; subst e; rfl) (some (Img.withView o a.cleared b.w b.h)) ?_ (by simp) (by intro x; simp) (by simp)
+      intro j hj; cases hj
+      exact ⟨by simp [Img.withView, Img.cleared], by simp [Img.withView, Img.cleared], by simpa [Img.withView] using hbz.2, by simp [Img.withView, Img.cleared],
+             fun he => by simpa [Img.withView, Img.cleared] using h.tags he s a hs⟩
+    -- then the source's view is reset
+    refine h2.setless s2 ?_ (some { b with w := 0, h := 0, off := 0, row := 0, pix := [] }) ?_ ?_ ?_ ?_
+    · intro j; simp [Ne.symm hne, hi1, hs2]; intro e; subst e; exact hbm
+    · intro j hj; cases hj
+      exact ⟨hbm, hbz.1, by simp, by simp, fun he => h.tags he s2 b hs2⟩
+    · unfold pTakeDims pRelease; simp [hs, hs2]
+    · intro x; rw [pTakeDims_imgs o w s s2 a b hs hs2]; simp only [setImg_imgs, hi1]
+      by_cases e2 : x = s2 <;> by_cases e1 : x = s <;> simp [e1, e2]
+    · unfold pTakeDims pRelease; simp [hs, hs2]
+
 theorem inv_stepMoveAssign {c : Cfg} {w : World} (h : Inv c w) (htmp : w.imgs tmpSlot = none)
     (o : Org) (s s2 : Nat) (hs6 : s < 6) (hnw : ∀ a b, w.imgs s = some a → w.imgs s2 = some b → NoWrap c o a.align b.w b.h) :
     Inv c (stepMoveAssign c o w s s2).1 := by
@@ -797,7 +836,14 @@ theorem inv_stepMoveAssign {c : Cfg} {w : World} (h : Inv c w) (htmp : w.imgs tm
               subst hw'eq
               rw [hoth s hnt, hs] at ha'; cases ha'
               exact Or.inr (htag b' hb' htmp).symm
-            · exact inv_pRelease h o s
+            next hbm =>
+              split
+              · refine inv_pTakeDims h o s s2 hne ?_
+                intro b' hb'; rw [hs2] at hb'; cases hb'
+                cases hm : b.mem with
+                | none => rfl
+                | some x => simp [hm] at hbm
+              · exact inv_pRelease h o s
   next => exact h
 
 
@@ -1095,7 +1141,9 @@ theorem step_tmpfree (c : Cfg) (w : World) (op : Op) (h : w.imgs tmpSlot = none)
                   · refine tmp_andThen _ _ ?_ ?_
                     · intro hf; right; rw [pCtor_fail_imgs _ _ _ _ _ _ _ _ _ hf]; exact h
                     · intro _; right; simp [pDtor_imgs]
-                  · exact keep _ _ (by rw [pRelease_imgs o s a hs]; simp [Ne.symm hne, h])
+                  · split
+                    · exact keep _ _ (by rw [pTakeDims_imgs o w s s2 a b hs hs2]; simp [Ne.symm hne, hne2, h])
+                    · exact keep _ _ (by rw [pRelease_imgs o s a hs]; simp [Ne.symm hne, h])
         · exact keep _ _ h
       · exact keep _ _ h
     · exact keep _ _ h
@@ -1344,6 +1392,11 @@ theorem hl_pRelease {w : World} (h : HeapLog w) (o : Org) (s : Nat) : HeapLog (p
   · exact hl_setImg (hl_release h o _) _ _
   · exact h
 
+theorem hl_pTakeDims {w : World} (h : HeapLog w) (o : Org) (s s2 : Nat) : HeapLog (pTakeDims o w s s2) := by
+  unfold pTakeDims; split
+  · exact hl_setImg (hl_setImg (hl_release h o _) _ _) _ _
+  · exact h
+
 theorem hl_userFill {w : World} (h : HeapLog w) (s v : Nat) : HeapLog (userFill w s v) := by
   unfold userFill; split
   · exact hl_setImg h _ _
@@ -1411,7 +1464,9 @@ theorem hl_step (c : Cfg) (w : World) (op : Op) (h : HeapLog w) : HeapLog (step 
                 · exact hl_pAdopt h ..
                 · split
                   · exact hl_andThen _ _ (hl_pCtor h ..) (fun w hw => hl_pDtor (hl_pRelease (hl_pAdopt hw ..) ..) ..)
-                  · exact hl_pRelease h ..
+                  · split
+                    · exact hl_pTakeDims h ..
+                    · exact hl_pRelease h ..
         · exact h
       · exact h
     · exact h
@@ -1556,5 +1611,243 @@ theorem replayLog_of_no_bad (l : List Event) : ∀ (h : List GBlock), (∀ g ∈
         simp only [List.getElem?_map, hb, Option.map_some, GBlock.abs, hfr, beq_self_eq_true, hsz, htg, and_self, if_true]
         rw [← this]
         simp [ghostStep, hb, List.map_set, GBlock.abs, hfr, hsz, htg]
+
+/-! ### a bound on dimensions and alignments is preserved by every operation -/
+
+/-- every image in every slot satisfies a predicate on (width, height, alignment) -/
+def AllImgs (D : Nat → Nat → Nat → Prop) (w : World) : Prop := ∀ s i, w.imgs s = some i → D i.w i.h i.align
+
+theorem all_setImg {D} {w : World} (h : AllImgs D w) (s : Nat) (v : Option Img) (hv : ∀ i, v = some i → D i.w i.h i.align) : AllImgs D (w.setImg s v) := by
+  intro s' i hi
+  simp only [setImg_imgs] at hi
+  split at hi
+  · exact hv i hi
+  · exact h s' i hi
+
+theorem all_of_imgs {D} {w w' : World} (h : AllImgs D w) (hi : w'.imgs = w.imgs) : AllImgs D w' := by
+  intro s i; rw [hi]; exact h s i
+
+theorem all_release {D} {w : World} (h : AllImgs D w) (o : Org) (i : Img) : AllImgs D (release o w i) :=
+  all_of_imgs h (release_imgs o w i)
+
+theorem all_pCtor {D} {w : World} (h : AllImgs D w) (c : Cfg) (o : Org) (s : Nat) (img0 : Img) (W H : Nat) (content : List Nat) (src : Option (Nat × Nat))
+    (h0 : D 0 0 img0.align) (h00 : img0.w = 0 ∧ img0.h = 0) (hd : D W H img0.align) : AllImgs D (pCtor c o w s img0 W H content src).1 := by
+  intro s' j hj
+  by_cases e : s' = s
+  · subst e
+    unfold pCtor at hj
+    simp only [] at hj
+    split at hj
+    · split at hj
+      · cases hres : w.construct o none (W * H) with
+        | mk w2 okc =>
+          rw [hres] at hj
+          cases okc with
+          | true => simp at hj; subst hj; simpa [Img.withView] using hd
+          | false =>
+            have := construct_imgs0 w o none (W * H); rw [hres] at this; simp only [] at this hj
+            rw [this] at hj; exact h s' j hj
+      · split at hj
+        · exact h s' j hj
+        · simp at hj; subst hj; simpa [h00.1, h00.2] using h0
+    · rcases alloc_cases w img0.tag (o.needed img0.align W H) with e | ⟨fa, e⟩
+      · rw [e] at hj; exact h s' j hj
+      · rw [e] at hj; simp only [] at hj
+        generalize hw1 : ({ w with heap := w.heap ++ [{ size := o.needed img0.align W H, tag := img0.tag }], log := Event.alloc w.heap.length (o.needed img0.align W H) img0.tag :: w.log, failA := fa } : World) = w1 at hj
+        have hi1 : w1.imgs = w.imgs := by rw [← hw1]
+        have ci := construct_imgs0 w1 o (some w.heap.length) (W * H)
+        cases hres : w1.construct o (some w.heap.length) (W * H) with
+        | mk w2 okc =>
+          rw [hres] at hj ci; simp only [] at hj ci
+          cases okc with
+          | true => simp at hj; subst hj; simpa [Img.withView] using hd
+          | false => simp [ci, hi1] at hj; exact h s' j hj
+  · rw [(pCtor_imgs c o w s img0 W H content src).1 s' e] at hj; exact h s' j hj
+
+theorem all_pDtor {D} {w : World} (h : AllImgs D w) (o : Org) (s : Nat) : AllImgs D (pDtor o w s) := by
+  intro s' j hj; rw [pDtor_imgs] at hj; split at hj
+  · cases hj
+  · exact h s' j hj
+
+theorem all_pSwap {D} {w : World} (h : AllImgs D w) (c : Cfg) (s s2 : Nat) : AllImgs D (pSwap c w s s2).1 := by
+  unfold pSwap; split
+  next a b hs hs2 =>
+    split
+    · exact all_setImg (all_setImg h _ _ (fun i e => by cases e; exact h s2 b hs2)) _ _ (fun i e => by cases e; exact h s a hs)
+    · split
+      · exact all_setImg (all_setImg h _ _ (fun i e => by cases e; exact h s2 b hs2)) _ _ (fun i e => by cases e; exact h s a hs)
+      · exact h
+  · exact h
+
+theorem all_pReuse {D} {w : World} (h : AllImgs D w) (o : Org) (s W H : Nat) (content : List Nat)
+    (hd : ∀ i, w.imgs s = some i → D W H i.align) : AllImgs D (pReuse o w s W H content).1 := by
+  unfold pReuse; split
+  next i hs =>
+    simp only []
+    have ci := construct_imgs0 (w.destruct o i.mem (i.w * i.h)) o (Img.withView o i W H).mem (W * H)
+    cases hres : (w.destruct o i.mem (i.w * i.h)).construct o (Img.withView o i W H).mem (W * H) with
+    | mk w2 okc =>
+      rw [hres] at ci; simp only [] at ci
+      have hw2 : AllImgs D w2 := all_of_imgs h (by rw [ci]; simp)
+      cases okc <;> exact all_setImg hw2 _ _ (fun j e => by cases e; simpa [Img.withView] using hd i hs)
+  · exact h
+
+theorem all_pAdopt {D} {w : World} (h : AllImgs D w) (hD0 : D 0 0 0) (o : Org) (s s2 : Nat) (t : Bool) : AllImgs D (pAdopt o w s s2 t) := by
+  unfold pAdopt; split
+  next a b hs hs2 =>
+    refine all_setImg (all_setImg (all_release h o a) _ _ (fun i e => by cases e; exact h s2 b hs2)) _ _ (fun i e => ?_)
+    cases e; simpa [Img.cleared] using hD0
+  · exact h
+
+theorem all_pRelease {D} {w : World} (h : AllImgs D w) (hD0 : ∀ W H a, D W H a → D 0 0 a) (o : Org) (s : Nat) : AllImgs D (pRelease o w s) := by
+  unfold pRelease; split
+  next a hs => exact all_setImg (all_release h o a) _ _ (fun i e => by cases e; simpa [Img.cleared] using hD0 _ _ _ (h s a hs))
+  · exact h
+
+theorem all_pTakeDims {D} {w : World} (h : AllImgs D w) (hD0 : ∀ W H a, D W H a → D 0 0 a)
+    (hDx : ∀ W H a W' H' a', D W H a → D W' H' a' → D W H a') (o : Org) (s s2 : Nat) :
+    AllImgs D (pTakeDims o w s s2) := by
+  unfold pTakeDims; split
+  next a b hs hs2 =>
+    refine all_setImg (all_setImg (all_release h o a) _ _ (fun i e => ?_)) _ _ (fun i e => ?_)
+    · cases e; simpa [Img.withView, Img.cleared] using hDx _ _ _ _ _ _ (h s2 b hs2) (h s a hs)
+    · cases e; simpa using hD0 _ _ _ (h s2 b hs2)
+  · exact h
+
+theorem all_userFill {D} {w : World} (h : AllImgs D w) (s v : Nat) : AllImgs D (userFill w s v) := by
+  unfold userFill; split
+  next i hs => exact all_setImg h _ _ (fun j e => by cases e; exact h s i hs)
+  · exact h
+
+theorem all_andThen {D} (r : World × Outcome) (k : World → World × Outcome) (h : AllImgs D r.1) (hk : ∀ w, AllImgs D w → AllImgs D (k w).1) :
+    AllImgs D (andThen r k).1 := by
+  unfold andThen; split
+  · exact hk _ h
+  · exact h
+
+theorem all_swapWithTmp {D} (c : Cfg) (o : Org) (r : World × Outcome) (s : Nat) (h : AllImgs D r.1) : AllImgs D (swapWithTmp c o r s).1 := by
+  unfold swapWithTmp
+  refine all_andThen _ _ h ?_
+  intro w hw
+  have hs := all_pSwap hw c s tmpSlot
+  cases hp : pSwap c w s tmpSlot with
+  | mk w' out => rw [hp] at hs; cases out <;> first | exact hs | exact all_pDtor hs o tmpSlot
+
+/-- the explicit dimensions and alignment an operation carries satisfy `D` -/
+def OpDims (D : Nat → Nat → Nat → Prop) : Op → Prop
+  | .dflt _ _ al => D 0 0 al
+  | .dims _ _ al W H _ => D W H al ∧ D 0 0 al
+  | .fill _ _ al W H _ => D W H al ∧ D 0 0 al
+  | .fillprobe _ _ al W H _ => D W H al ∧ D 0 0 al
+  | .fromview _ _ al _ => ∀ W H a, D W H a → D W H al     -- re-aligning an existing image's dimensions
+  | .recreate _ W H al _ _ _ => D W H al ∧ D 0 0 al ∧ ∀ W' H' a, D W' H' a → D W' H' al
+  | _ => True
+
+/-- `D` is a bound: it does not depend on which alignment of two admissible images is combined with which dimensions -/
+def DClosed (D : Nat → Nat → Nat → Prop) : Prop :=
+  D 0 0 0 ∧ (∀ W H a, D W H a → D 0 0 a) ∧ ∀ W H a W' H' a', D W H a → D W' H' a' → D W H a'
+
+theorem all_step {D} (hD : DClosed D) (c : Cfg) (w : World) (op : Op) (h : AllImgs D w) (hop : OpDims D op) : AllImgs D (step c w op).1 := by
+  obtain ⟨hD00, hD0, hDx⟩ := hD
+  cases op with
+  | dflt s t al => simp only [step]; split <;> first | exact all_setImg h _ _ (fun i e => by cases e; exact hop) | exact h
+  | dims s t al W H v =>
+    simp only [step]; split
+    · exact all_andThen _ _ (all_pCtor h c _ s _ W H _ none hop.2 ⟨rfl, rfl⟩ hop.1) (fun w hw => all_userFill hw _ _)
+    · exact h
+  | fill s t al W H v => simp only [step]; split <;> first | exact all_pCtor h c _ s _ W H _ none hop.2 ⟨rfl, rfl⟩ hop.1 | exact h
+  | fillprobe s t al W H v =>
+    simp only [step]; split
+    next o ho hs =>
+      have hp := all_pCtor (D := D) h c o s (Img.fresh al (c.tagOf t)) W H (List.replicate (W * H) v) none hop.2 ⟨rfl, rfl⟩ hop.1
+      split
+      next w' heq => rw [heq] at hp; exact all_userFill hp _ _
+      next r hr => exact hp
+    · exact h
+  | fromview s t al s2 =>
+    simp only [step]; split
+    next o b ho hs hs2 =>
+      split
+      · exact all_pCtor h c o s _ b.w b.h b.pix _ (hD0 _ _ _ (hop _ _ _ (h s2 b hs2))) ⟨rfl, rfl⟩ (hop _ _ _ (h s2 b hs2))
+      · exact h
+    · exact h
+  | copy s s2 =>
+    simp only [step]; split
+    next o _ b ho _ hs hs2 => exact all_pCtor h c o s _ b.w b.h b.pix _ (hD0 _ _ _ (h s2 b hs2)) ⟨rfl, rfl⟩ (h s2 b hs2)
+    · exact h
+  | move s s2 =>
+    simp only [step]; split
+    next o b ho hs hs2 =>
+      split
+      · exact all_setImg (all_setImg h _ _ (fun i e => by cases e; exact h s2 b hs2)) _ _ (fun i e => by cases e; simpa [Img.cleared] using hD00)
+      · exact h
+    · exact h
+  | assign s s2 =>
+    simp only [step]; split
+    · unfold stepAssign; split
+      next a b hs hs2 =>
+        split
+        · exact all_setImg h _ _ (fun i e => by cases e; exact h s a hs)
+        · exact all_swapWithTmp c _ _ s (all_pCtor h c _ tmpSlot _ b.w b.h b.pix _ (hD0 _ _ _ (h s2 b hs2)) ⟨rfl, rfl⟩ (h s2 b hs2))
+      · exact h
+    · exact h
+  | massign s s2 =>
+    simp only [step]; split
+    next o ho =>
+      split
+      · unfold stepMoveAssign; split
+        next a b hs hs2 =>
+          split
+          · exact h
+          · split
+            · exact all_pAdopt h hD00 o s s2 true
+            · split
+              · exact h
+              · split
+                · exact all_pAdopt h hD00 o s s2 false
+                · split
+                  · refine all_andThen _ _ (all_pCtor h c o tmpSlot _ b.w b.h b.pix _ (hD0 _ _ _ (h s a hs)) ⟨rfl, rfl⟩ (hDx _ _ _ _ _ _ (h s2 b hs2) (h s a hs))) ?_
+                    intro w' hw'
+                    exact all_pDtor (all_pRelease (all_pAdopt hw' hD00 o s tmpSlot false) hD0 o s2) o tmpSlot
+                  · split
+                    · exact all_pTakeDims h hD0 hDx o s s2
+                    · exact all_pRelease h hD0 o s
+        · exact h
+      · exact h
+    · exact h
+  | swap s s2 =>
+    simp only [step]; split
+    · split <;> first | exact all_pSwap h c s s2 | exact h
+    · exact h
+  | recreate s W H al fill alloc v =>
+    simp only [step]; split
+    next o ho =>
+      unfold stepRec; split
+      · exact h
+      next i hs =>
+        simp only []
+        split
+        · split <;> first | exact all_userFill h _ _ | exact h
+        · have h1 : AllImgs D (w.setImg s (some { i with align := al })) :=
+            all_setImg h _ _ (fun j e => by cases e; exact hop.2.2 _ _ _ (h s i hs))
+          refine all_andThen _ _ ?_ ?_
+          · split
+            · exact all_pReuse h1 o s W H _ (fun j hj => by simp at hj; subst hj; exact hop.1)
+            · exact all_swapWithTmp c o _ s (all_pCtor h1 c o tmpSlot _ W H _ none hop.2.1 ⟨rfl, rfl⟩ hop.1)
+          · intro w' hw'; split <;> first | exact all_userFill hw' _ _ | exact hw'
+    · exact h
+  | write s x y v =>
+    simp only [step]; split
+    next o i ho hs => split <;> first | exact all_setImg h _ _ (fun j e => by cases e; exact h s i hs) | exact h
+    · exact h
+  | destroy s => simp only [step]; split <;> first | exact all_pDtor h _ s | exact h
+  | stop =>
+    simp only [step]
+    have : ∀ (l : List Nat) (w : World), AllImgs D w → AllImgs D (l.foldl (fun w s => match c.orgOf s with | some o => pDtor o w s | none => w) w) := by
+      intro l; induction l with
+      | nil => intro w hw; exact hw
+      | cons a l ih => intro w hw; simp only [List.foldl_cons]; apply ih; split <;> first | exact all_pDtor hw _ a | exact hw
+    exact this slots w h
+  | bad => exact h
 
 end GilVerif.Lemmas.C10
